@@ -125,7 +125,13 @@ impl Transformer {
                     };
                 }
             }
-            Expression::FunctionCall { args, .. } => {
+            Expression::FunctionCall { callable, args, .. } => {
+                // A plain identifier in callee position is the name of a function (or of a
+                // variable holding one) and must stay an identifier. Any other callee is an
+                // expression like all others and may contain units: `(if x > 0 m then f else g)(x)`.
+                if !matches!(**callable, Expression::Identifier(..)) {
+                    self.transform_expression(callable);
+                }
                 for arg in args {
                     self.transform_expression(arg);
                 }
